@@ -85,6 +85,9 @@ fn once_case(s: &mut dyn Src, fl: &Flavour, fixed: Option<&Sch>, tcfg: &TypedCfg
     let mut known = false;
     let mut bad: Option<String> = None;
     for t in &want.touches {
+        if !dynamic && vschemas::z::is_plain_data_field(&t.parent_type, &t.field) {
+            continue;
+        }
         let p = show_path(&t.path);
         let n = starts.get(&p).copied().unwrap_or(0);
         if n != 1 && bad.is_none() {
@@ -100,6 +103,14 @@ fn once_case(s: &mut dyn Src, fl: &Flavour, fixed: Option<&Sch>, tcfg: &TypedCfg
     if let Some(b) = bad {
         // does the deviation match the quirk of C04-F1 exactly (one execution per occurrence, every spread followed)?
         let predicted = vgql::refexec::starts_per_occurrence(sch, &td.doc, td.op_name.as_deref(), &td.vars, &world).unwrap_or_default();
+        let mut predicted = predicted;
+        if !dynamic {
+            for t in &want.touches {
+                if vschemas::z::is_plain_data_field(&t.parent_type, &t.field) {
+                    predicted.remove(&show_path(&t.path));
+                }
+            }
+        }
         if f1_open && predicted == starts {
             known = true;
         } else {
